@@ -90,8 +90,13 @@ def eq_tensor(sk, *xs):
     b, pos, _ = build_tree(sk["b"], xs, pos)
     d = sk["depth"]
     ids = rank_ids_for(d)
-    ta = Tensor.fromFiber(ids, a)
-    tb = Tensor.fromFiber(ids, b)
+    if sk.get("shapes"):
+        # "whatever ... shapes ... they carry": two authoritative, different shapes
+        ta = Tensor.fromFiber(ids, a, shape=[4] * d)
+        tb = Tensor.fromFiber(ids, b, shape=[6 + i for i in range(d)])
+    else:
+        ta = Tensor.fromFiber(ids, a)
+        tb = Tensor.fromFiber(ids, b)
     tc = Tensor.fromFiber(["X"] + ids[1:], copy.deepcopy(b))
     same = content(ta.getRoot()) == content(tb.getRoot())
     if (ta == tb) != same:
@@ -153,6 +158,9 @@ def obligations(tier):
     for a, b in [(1, 1), (2, 1), ([1], [1]), ([1, 0], [1])]:
         ps, pre = _pp([a, b], "xy")
         obs.append(Ob("tensor/%s-%s" % (_nm(a), _nm(b)), "eq_tensor", dict(a=a, b=b, depth=tree_depth(a)), ps, pre))
+        _, _, cn = tree_pre(a, names("x", tree_params(a)))
+        _, _, cn2 = tree_pre(b, names("y", tree_params(b)))
+        obs.append(Ob("tensor-shapes/%s-%s" % (_nm(a), _nm(b)), "eq_tensor", dict(a=a, b=b, depth=tree_depth(a), shapes=True), ps, pre + bound_pre(cn + cn2, 0, 4)))
         if tree_depth(a) == 1:
             obs.append(Ob("tensor2/%s-%s" % (_nm(a), _nm(b)), "eq_tensor", dict(a=a, b=b, depth=tree_depth(a), part=2), ps, pre))
     return obs
